@@ -573,14 +573,14 @@ func ReplacePredicateVariables(query parser.Query) string {
 		for i, param := range invokedPredicate.Parameter {
 			predicateExpression += param.Name + ","
 			for _, entity := range query.SelectList {
-				if entity.Alias == param.Name {
+				if entity.Alias == param.Name && i < len(invokedPredicate.Predicate.Parameter) {
 					matchedPredicate := invokedPredicate.Predicate
 					invokedPredicate.Predicate.Body = strings.ReplaceAll(invokedPredicate.Predicate.Body, matchedPredicate.Parameter[i].Name, entity.Alias)
 				}
 			}
 		}
 		// remove the last comma
-		predicateExpression = predicateExpression[:len(predicateExpression)-1]
+		predicateExpression = strings.TrimSuffix(predicateExpression, ",")
 		predicateExpression += ")"
 		invokedPredicate.Predicate.Body = "(" + invokedPredicate.Predicate.Body + ")"
 		expression = strings.ReplaceAll(expression, predicateExpression, invokedPredicate.Predicate.Body)
